@@ -407,6 +407,8 @@ class SimSubprocess:
             p.rec["verdict"] = False
             p.rec["model"] = None
             p.rec["stdin"] = len(input or b"")
+            if p.spec.get("shape", {}).get("exit_10_20"):
+                p.returncode = 20
             out = shape_dimacs_output(False, None, p.spec.get("shape", {}))
             return (self._stdout_faults(out), None)
         spec = p.spec
@@ -458,6 +460,11 @@ class SimSubprocess:
             verdict = False
         rec["verdict"] = verdict
         rec["model"] = model
+        # exit status: the SAT competition convention (10 / 20) or plain 0,
+        # whichever this solver follows
+        if shape.get("exit_10_20"):
+            p.returncode = 10 if verdict else 20
+            self.ctx.fault("solver_exit_status_10_20")
         if conv == "filein_fileout":
             out, result = shape_minisat(verdict, model, shape)
             fault = self.plan.get("result_file")
@@ -621,4 +628,5 @@ def random_shape(rng):
         # diagnostics on the standard error (indices into STDERR_LINES)
         s["stderr"] = [rng.randrange(7) for _ in range(rng.randint(1, 3))]
         s["stderr_first"] = rng.random() < 0.5
+    s["exit_10_20"] = rng.random() < 0.6
     return s
